@@ -197,6 +197,7 @@ def linop_problems(part, op, D, modes, seed, tag=""):
                 probs.append(("%s:%s:shape%s" % (part, grp, vt), "mode %s: shape %s, dense definition %s"
                               % (mode, qshape, E.shape), mode, forms[0] if forms else None))
                 continue
+            kept = []
             for form in forms:
                 if form in ("rv", "rm"):
                     if mode != "H":
@@ -220,6 +221,14 @@ def linop_problems(part, op, D, modes, seed, tag=""):
                                       "mode %s %s differs from the dense definition, first at %s: got %r expected %r"
                                       % (mode, label, bad, got[tuple(bad)].item(), exp[tuple(bad)].item()), mode, form))
                         break
+                    kept.append((label, form, got, exp))
+            # results of earlier applications, still held by the caller, must not have been changed by later ones
+            for label, form, got, exp in kept:
+                if not np.array_equal(got, exp):
+                    probs.append(("%s:%s:aliased-result%s" % (part, grp, vt),
+                                  "mode %s: the result of %s, kept by the caller, no longer equals the dense definition after "
+                                  "later applications of the same operator" % (mode, label), mode, form))
+                    break
     return probs, ncalls
 
 
